@@ -13,7 +13,7 @@ from hv.worlds import World, profile, st_world, world_summary
 
 PROP = "C15"
 RULE = ("generated file-based scenarios (requests, time-varying prices, human and autonomous vehicles, petrol and electric, built-in generators plus a "
-        "deterministic state-only scripted controller, eager and lazy readers, all network kinds) and a random composition n = a1+...+am; the "
+        "deterministic state-only scripted controller and a stateful one that returns an updated copy of itself every step, eager and lazy readers, all network kinds) and a random composition n = a1+...+am; the "
         "scenario is loaded fresh three times in one process: (A) crank(a1)...crank(am), optionally re-injecting the built-in generators between "
         "calls through runner_payload_ops, (B) crank(n), (C) LocalSimulationRunner.run with end = start + n*dt; a handler snapshots the state at every "
         "flush; per step k the canonical state (instance ids stripped, set-valued fields sorted) and the multiset of events must be equal across "
@@ -31,7 +31,7 @@ PROFILE = profile(nv=(1, 5), n_requests=(5, 40), builtin=[True], n_scripted=[1],
 def st_case(draw) -> Dict[str, Any]:
     w = draw(st_world(PROFILE))
     parts = draw(st.lists(st.integers(1, 30), min_size=1, max_size=6) | st.lists(st.integers(1, 12), min_size=3, max_size=6))
-    return {"world": w, "parts": parts, "reinject": draw(st.booleans()), "det": draw(st.booleans()),
+    return {"world": w, "parts": parts, "reinject": draw(st.booleans()), "det": draw(st.sampled_from([True, True, False])), "stateful": draw(st.booleans()),
             "end_offset": draw(st.integers(0, 3 * w["sim"]["timestep_duration_seconds"])), "range_steps": draw(st.integers(0, 12))}
 
 
@@ -66,6 +66,34 @@ def _det_controller():
     return DetController()
 
 
+def _stateful_controller():
+    """a user-style generator that evolves: every call returns an *updated copy* of itself (a round-robin pointer), so the runs only
+    agree if every step is applied with the Update produced by the previous step"""
+    from dataclasses import dataclass, replace
+
+    from nrel.hive.dispatcher.instruction import instructions as I
+    from nrel.hive.dispatcher.instruction_generator.instruction_generator import InstructionGenerator
+
+    @dataclass(frozen=True)
+    class RoundRobin(InstructionGenerator):
+        pointer: int = 0
+
+        def generate_instructions(self, sim, env):
+            vs = sorted(sim.vehicles.keys())
+            bs = sorted(sim.bases.keys())
+            out = []
+            if vs and self.pointer % 3 == 0:
+                v = sim.vehicles[vs[(self.pointer // 3) % len(vs)]]
+                n = type(v.vehicle_state).__name__
+                if n == "Idle" and bs:
+                    out.append(I.DispatchBaseInstruction(v.id, bs[self.pointer % len(bs)]))
+                elif n in ("ReserveBase", "ChargingStation", "ChargeQueueing", "DispatchBase"):
+                    out.append(I.IdleInstruction(v.id))
+            return replace(self, pointer=self.pointer + 1), tuple(out)
+
+    return RoundRobin()
+
+
 def _snap_handler():
     from nrel.hive.reporting.handler.handler import Handler
 
@@ -96,7 +124,10 @@ def _load(case, end_steps):
         from nrel.hive.runner import runner_payload_ops as rpo
 
         cfg = world.rp.e.config.dispatcher
-        world.rp = rpo.set_instruction_generators(world.rp, (Dispatcher(cfg), ChargingFleetManager(cfg), _det_controller()))
+        gens = (Dispatcher(cfg), ChargingFleetManager(cfg), _det_controller())
+        if case.get("stateful", True):
+            gens = gens + (_stateful_controller(),)
+        world.rp = rpo.set_instruction_generators(world.rp, gens)
     snap = _snap_handler()
     world.rp.e.reporter.add_handler(snap)
     return world, snap
